@@ -21,6 +21,8 @@ struct AttrCase {
     /// combined #[logos(...)] items: (text, is_skip, is_subpattern)
     logos_items: Vec<(String, bool, bool)>,
     perm_seed: u64,
+    /// enum T<'a, G> with a variant holding G and one holding &'a str (items `type G = ..`, `lifetime = ..`)
+    generic: bool,
 }
 
 fn permutations<T: Clone>(v: &[T], limit: usize, seed: u64) -> Vec<Vec<T>> {
@@ -88,11 +90,14 @@ fn render(case: &AttrCase, named: &[String], items: &[(String, bool, bool)]) -> 
     if !all_items.is_empty() {
         s.push_str(&format!("#[logos({})]\n", all_items.join(", ")));
     }
-    s.push_str("enum T {\n");
+    s.push_str(if case.generic { "enum T<'a, G> {\n" } else { "enum T {\n" });
     match case.form {
         "token" => s.push_str(&format!("    #[token({args})]\n    A,\n")),
         "regex" => s.push_str(&format!("    #[regex({args})]\n    A,\n")),
         _ => s.push_str("    #[token(\"zz\")]\n    A,\n"),
+    }
+    if case.generic {
+        s.push_str("    #[token(\"w\", |lex| lex.slice())]\n    C(&'a str),\n    #[regex(\"v+\", make_g)]\n    D(G),\n");
     }
     s.push_str("    #[token(\"q\")]\n    B,\n}\n");
     s
@@ -113,6 +118,9 @@ fn check(case: &AttrCase, run: &mut Run) -> Result<(), String> {
     }
     let canon_ok = canon.errors.is_empty();
     run.count(if canon_ok { "canonical_accepted" } else { "canonical_rejected" }, 1);
+    if case.generic {
+        run.count(if canon_ok { "generic_enum_accepted" } else { "generic_enum_rejected" }, 1);
+    }
     let paren_not_last = |named: &[String]| named.iter().position(|n| n.starts_with("ignore(")).map(|i| i + 1 < named.len()).unwrap_or(false);
     // 1. named argument permutations
     for perm in permutations(&case.named, 24, case.perm_seed) {
@@ -149,7 +157,7 @@ fn check(case: &AttrCase, run: &mut Run) -> Result<(), String> {
                 a == b
             };
             // dependency-respecting: every subpattern is defined before any item that refers to it
-            let defined_before_use = ["ws", "ws2"].iter().all(|name| {
+            let defined_before_use = ["ws", "ws2", "hi"].iter().all(|name| {
                 let def_pos = perm.iter().position(|i| i.0.starts_with(&format!("subpattern {name} =")));
                 let first_use = perm.iter().position(|i| i.0.contains(&format!("(?&{name})")));
                 match (def_pos, first_use) {
@@ -255,11 +263,33 @@ fn strategy() -> BoxedStrategy<AttrCase> {
             ("subpattern ws = \"[ \\n]\"", false, true),
             ("subpattern ws2 = \"(?&ws)(?&ws)\"", false, true),
             ("export_dir = \"/nonexistent/x\"", false, false),
+            // only acceptable together with utf8 = false, wherever that item stands
+            ("subpattern hi = b\"[\\x80-\\xff]\"", false, true),
+            ("skip b\"\\xfd+\"", true, false),
+            ("skip(\"(?&hi)z\")", true, false),
+            ("utf8 = false", false, false),
+            ("source = [u8]", false, false),
         ]),
         0..=4,
     );
-    (form, lit, pos, prio, cb, ign, greedy, items, any::<u64>())
-        .prop_map(|(form, literal, positional_cb, prio, cb, ign, greedy, items, perm_seed)| {
+    // items that only make sense on `enum T<'a, G>`
+    let generic_items = prop::option::weighted(
+        0.3,
+        (
+            select(vec!["type G = &'a str", "type G = u32", "type G = Vec<&'a str>", "type G = std::borrow::Cow<'a, str>", "type G = (&'a str, u8)"]),
+            prop::option::weighted(0.7, select(vec!["lifetime = 'a", "lifetime = none", "lifetime = 'b"])),
+            prop::option::weighted(0.3, select(vec!["extras = Ctx<'a>", "error = Err<'a>", "source = [u8]"])),
+        ),
+    );
+    (form, lit, pos, prio, cb, ign, greedy, items, any::<u64>(), generic_items)
+        .prop_map(|(form, literal, positional_cb, prio, cb, ign, greedy, mut items, perm_seed, generic_items)| {
+            let generic = generic_items.is_some();
+            if let Some((ty, lt, more)) = generic_items {
+                items.truncate(2);
+                items.push((ty, false, false));
+                items.extend(lt.map(|l| (l, false, false)));
+                items.extend(more.map(|m| (m, false, false)));
+            }
             let mut named: Vec<String> = Vec::new();
             named.extend(prio);
             if positional_cb.is_none() {
@@ -281,9 +311,18 @@ fn strategy() -> BoxedStrategy<AttrCase> {
             if uses_ws && !li.iter().any(|i| i.0.starts_with("subpattern ws =")) {
                 li.insert(0, ("subpattern ws = \"[ \\n]\"".to_string(), false, true));
             }
+            if li.iter().any(|i| i.0.contains("(?&hi)")) && !li.iter().any(|i| i.0.starts_with("subpattern hi =")) {
+                li.insert(0, ("subpattern hi = b\"[\\x80-\\xff]\"".to_string(), false, true));
+            }
+            // byte items are only acceptable in byte mode: make the definition a byte-mode one (4 of 5 times)
+            let needs_bytes = li.iter().any(|i| i.0.contains("b\"") || i.0.contains("(?&hi)"));
+            if needs_bytes && perm_seed % 5 != 0 && !li.iter().any(|i| i.0 == "utf8 = false" || i.0 == "source = [u8]") {
+                li.retain(|i| i.0 != "utf8 = true");
+                li.push(("utf8 = false".to_string(), false, false));
+            }
             // canonical order: subpatterns first (ws before ws2), then the rest as generated
             li.sort_by_key(|i| if i.0.starts_with("subpattern ws =") { 0 } else if i.2 { 1 } else { 2 });
-            AttrCase { form, literal, positional_cb, named, logos_items: li, perm_seed }
+            AttrCase { form, literal, positional_cb, named, logos_items: li, perm_seed, generic }
         })
         .boxed()
 }
@@ -293,7 +332,7 @@ pub fn main(args: &Args) -> i32 {
         "C18",
         &args.tier,
         args.seed,
-        "proptest attribute cases: #[token]/#[regex]/#[logos(skip(...))] with literal, optional positional callback and a subset of {priority, callback =, ignore(...), allow_greedy}; every permutation of the named arguments (<= 24) and up to 40 permutations of the items of one combined #[logos(...)] attribute (skip, skip(...), utf8, error, error(...), extras, crate, subpattern, export_dir; subpatterns keep their relative order) is derived; oracle: same acceptance as the canonical order and identical generate() output (same leaves and automaton size when skips were reordered); evaluation = one permuted derive; non-trivial = distinct permutations with >= 2 named arguments where the parenthesised one is not last, or item orders with a parenthesised item not last",
+        "proptest attribute cases: #[token]/#[regex]/#[logos(skip(...))] with literal, optional positional callback and a subset of {priority, callback =, ignore(...), allow_greedy}; every permutation of the named arguments (<= 24) and up to 40 permutations of the items of one combined #[logos(...)] attribute (skip, skip(...), utf8, error, error(...), extras, crate, subpattern, export_dir, and on a generic enum T<'a, G>: type G = .., lifetime = .., source; subpatterns keep their relative order) is derived; oracle: same acceptance as the canonical order and identical generate() output (same leaves and automaton size when skips were reordered); evaluation = one permuted derive; non-trivial = distinct permutations with >= 2 named arguments where the parenthesised one is not last, or item orders with a parenthesised item not last",
     );
     if let Some(path) = &args.replay {
         let v: serde_json::Value = serde_json::from_str(&std::fs::read_to_string(path).unwrap()).unwrap();
